@@ -399,6 +399,30 @@ pub fn cmd_selftest(_args: &[String]) -> i32 {
         }
     }
     println!("selftest: {w} writer outputs read back by the reference decoder");
+    // 4. the independent well-formedness model agrees with the library's constructor on the unchanged tree
+    let mut r = Rng::new(99);
+    let (mut pos, mut neg, mut none) = (0u64, 0u64, 0u64);
+    for g in 0..300_000u32 {
+        let z = gen_zone(&mut r, ZoneOpts { tag: Some(g), dense: g % 2 == 0, allow_invalid: g % 3 == 0, allow_huge: g % 200 == 3, i32_times: g % 3 == 1 });
+        match crate::refmodel::independently_valid(&z) {
+            None => none += 1,
+            Some(v) => {
+                if v {
+                    pos += 1
+                } else {
+                    neg += 1
+                }
+                if v != z.valid() {
+                    println!("selftest: independent model says {v}, TimeZoneRef::new says {} for: {}", z.valid(), z.text());
+                    bad += 1;
+                    if bad > 5 {
+                        break;
+                    }
+                }
+            }
+        }
+    }
+    println!("selftest: independent well-formedness model vs constructor on 300000 generated specs: {pos} well-formed, {neg} violating, {none} no position, {bad} disagreements so far");
     if bad == 0 {
         println!("selftest: ok");
         0
